@@ -125,6 +125,16 @@ CHECKS = {
     note="Shape validation of replayed results (the specification supplies the inputs and the record shapes); primary-key membership "
          "judged on generated, well-formed tables only; quick tier samples modes/flags; TLC, PLY, CPython trusted.",
     design="DESIGN.md 4 (C12)", technique=TECH + " (TableFold.tla, Registry.tla, Entities.tla, Clauses.tla)"),
+ "C19": dict(
+    text="TLC model-checks ReturnsApi / DumpNameAndContent / NoDumpWritesNothing / DirModeIsPerFile of spec/EntryPoints.tla over every "
+         "history of <=2 (thorough 3) operations {parse_from_file, sdp <file>, sdp <dir>} x dump / --no-dump x target directory "
+         "{missing, existing, nested} over 9 file-name forms, and must refute DirModeIsPerFile for the shipped `second dot-part` "
+         "extension rule. Every state of the generation configuration is replayed in a scratch directory through the real "
+         "parse_from_file (file encodings and parser settings by seed), cli.main() (-t, -o, -v, --no-dump) and, in the thorough "
+         "tier, a fresh interpreter: returned / printed results must equal the in-memory API, and the files on disk must be exactly "
+         "those of the TLC state, each the JSON of the API result.",
+    note="Scratch dirs under the system temp dir (removed); quick tier samples two-operation histories; TLC, CPython trusted.",
+    design="DESIGN.md 3.8, 4 (C19)", technique=TECH + " (EntryPoints.tla)"),
 }
 NOT_YET = {}
 def main():
